@@ -173,6 +173,7 @@ class ModelFS:
         self.reads = []               # Manifest loads: (path, verified?) ghost log
         self.written_sizes = [*written_sizes]
         self.size_of = {}             # logical Manifest path -> uncompressed size
+        self.sysroot = None           # optional node standing for '/'
         self._wtok = 0
         self.walk_fuel = walk_fuel
         self.ncalls = 0
@@ -241,6 +242,8 @@ class ModelFS:
         NotADirectoryError when a component is not a directory, OSError(ELOOP) on a
         symlink chain longer than 40."""
         path = posixpath.normpath(path)
+        if path == '/' and self.sysroot is not None:
+            return self.sysroot
         if path != ROOT and not path.startswith(ROOT + '/'):
             return None
         rel = path[len(ROOT):].strip('/')
